@@ -83,10 +83,12 @@ def multiply(
 
     # The compiled kernel writes each exponent as one byte of a UTF-8 key
     # into a 256 byte buffer (terminating NUL included) and only handles a
-    # few coefficient dtypes of exactly the output dtype.
+    # few coefficient dtypes of exactly the output dtype. It writes through
+    # ``ravel()``, which is a copy unless the output is C-contiguous.
     compiled = (
         out_.dtype in COMPILED_DTYPES
         and numpy.result_type(x1.dtype, x2.dtype) == out_.dtype
+        and out_.flags.c_contiguous
         and int(numpy.max(x1.exponents)) + int(numpy.max(x2.exponents)) + x1.KEY_OFFSET
         < 128
         and x1.exponents.shape[1] < 256
